@@ -1,0 +1,76 @@
+//go:build verif
+// +build verif
+
+package rafthttp
+
+import (
+	"io"
+
+	"github.com/youzan/ZanRedisDB/pkg/types"
+	"github.com/youzan/ZanRedisDB/raft/raftpb"
+	"github.com/youzan/ZanRedisDB/stats"
+)
+
+// Verification hooks (build tag verif only): exported handles on the unexported
+// stream codecs so that an external harness can drive the real encoders/decoders.
+// Nothing here changes behaviour; every wrapper forwards to the unexported code.
+
+// VerifEncoder / VerifDecoder are the package's encoder / decoder interfaces.
+type VerifEncoder interface {
+	Encode(m *raftpb.Message) error
+}
+
+type VerifDecoder interface {
+	Decode() (raftpb.Message, error)
+}
+
+type verifEnc struct{ e encoder }
+
+func (v verifEnc) Encode(m *raftpb.Message) error { return v.e.encode(m) }
+
+type verifDec struct{ d decoder }
+
+func (v verifDec) Decode() (raftpb.Message, error) { return v.d.decode() }
+
+// VerifNewMsgAppV2Encoder builds the msgappv2 stream encoder exactly as streamWriter.run does.
+func VerifNewMsgAppV2Encoder(w io.Writer, ps *stats.PeerStats) VerifEncoder {
+	return verifEnc{newMsgAppV2Encoder(w, ps)}
+}
+
+// VerifNewMsgAppV2Decoder builds the msgappv2 stream decoder exactly as streamReader.decodeLoop does.
+func VerifNewMsgAppV2Decoder(r io.Reader, local, remote types.ID) VerifDecoder {
+	return verifDec{newMsgAppV2Decoder(r, local, remote)}
+}
+
+// VerifNewMessageEncoder builds the plain message encoder exactly as streamWriter.run does.
+func VerifNewMessageEncoder(w io.Writer) VerifEncoder {
+	return verifEnc{&messageEncoder{w: w}}
+}
+
+// VerifNewMessageDecoder builds the plain message decoder exactly as streamReader.decodeLoop does.
+func VerifNewMessageDecoder(r io.Reader) VerifDecoder {
+	return verifDec{newMessageDecoder(r)}
+}
+
+// VerifNewBareMessageDecoder builds the plain message decoder as the pipeline / snapshot
+// handlers in http.go do (no preallocated buffer).
+func VerifNewBareMessageDecoder(r io.Reader) VerifDecoder {
+	return verifDec{&messageDecoder{r: r}}
+}
+
+// VerifIsLinkHeartbeat exposes isLinkHeartbeatMessage.
+func VerifIsLinkHeartbeat(m *raftpb.Message) bool { return isLinkHeartbeatMessage(m) }
+
+// VerifLinkHeartbeat returns a copy of the link-layer heartbeat message.
+func VerifLinkHeartbeat() raftpb.Message { return linkHeartbeatMessage }
+
+// Constants the codecs depend on.
+const (
+	VerifMsgTypeLinkHeartbeat = msgTypeLinkHeartbeat
+	VerifMsgTypeAppEntries    = msgTypeAppEntries
+	VerifMsgTypeApp           = msgTypeApp
+	VerifMsgAppV2BufSize      = msgAppV2BufSize
+)
+
+// VerifReadBytesLimit returns the size limit of the plain message decoder.
+func VerifReadBytesLimit() uint64 { return readBytesLimit }
